@@ -1,6 +1,7 @@
 import MalVerif.Py.AbsLang
 import MalVerif.Py.GenLang.Attacks
 import MalVerif.Proofs.InheritHLemmas
+import MalVerif.Props.C03
 /-!
 # Tie: translated `LanguageGraph._get_attacks_for_asset_type` (`Py/GenLang/Attacks.lean`)  =  the heap-level
 resolver of the hand-written model (`Model/InheritH.lean: resolveHG true`) under the abstraction of `Py/AbsLang.lean`
@@ -653,5 +654,127 @@ theorem attacksPy_sim (s : LS) (bs br bl : Nat) (hwf : SpecBelow s bs br bl) :
         have := foldl_mergePy_sim (lo := s.exprL.length) s a.attackSteps hsteps hwf.hl s1 acc1
           F1 (Nat.le_refl _) (Nat.le_refl _) (Nat.le_refl _) f1 i1
         exact ⟨_, _, rfl, this.1, this.2.1, this.2.2.1, this.2.2.2⟩
+
+/-! ## Step 3 — the call as a whole, and histories of calls -/
+
+theorem absLang_assets_length (s : LS) : (absLang s).assets.length = s.assets.length := by
+  simp [absLang, readLang, absLangH]
+
+theorem wf_of_specBelow {s : LS} {bs br bl : Nat} (hwf : SpecBelow s bs br bl) : (absLangH s).WF bl := by
+  intro a ha st hst ov l hr
+  simp only [absLangH, List.mem_map] at ha
+  obtain ⟨a0, ha0, rfl⟩ := ha
+  simp only [absAsset, List.mem_map] at hst
+  obtain ⟨r, hr0, rfl⟩ := hst
+  unfold absStep at hr
+  cases hrr : (s.step r).reaches with
+  | none => simp [hrr] at hr
+  | some rr =>
+    simp only [hrr, Option.map_some, Option.some.injEq, Prod.mk.injEq] at hr
+    rw [← hr.2]; exact hwf.list_lt a0 ha0 r hr0 rr hrr
+
+theorem FrameAt.weaken {s s' : LS} {ms mr ml ms' mr' ml' : Nat} (h : FrameAt s s' ms mr ml)
+    (h1 : ms' ≤ ms) (h2 : mr' ≤ mr) (h3 : ml' ≤ ml) : FrameAt s s' ms' mr' ml' :=
+  ⟨h.assets, h.associations, fun r hr => h.step_eq r (by omega), fun r hr => h.reach_eq r (by omega),
+   fun r hr => h.list_eq r (by omega), h.step_len, h.reach_len, h.list_len⟩
+
+/-- a frame that covers the marks of the specification keeps the heap well-formed and the specification the same -/
+theorem frame_spec {s s' : LS} {bs br bl : Nat} (hwf : SpecBelow s bs br bl) (hF : FrameAt s s' bs br bl) :
+    SpecBelow s' bs br bl ∧ absLangH s' = absLangH s ∧ absLang s' = absLang s := by
+  have hstep : ∀ a ∈ s.assets, ∀ r ∈ a.attackSteps, s'.step r = s.step r :=
+    fun a ha r hr => step_of_get (hF.step_eq _ (hwf.step_lt a ha r hr))
+  have hreach : ∀ a ∈ s.assets, ∀ r ∈ a.attackSteps, ∀ rr, (s.step r).reaches = some rr → s'.reach rr = s.reach rr :=
+    fun a ha r hr rr hrr => reach_of_get (hF.reach_eq _ (hwf.reach_lt a ha r hr rr hrr))
+  have hH : absLangH s' = absLangH s := by
+    unfold absLangH
+    rw [hF.assets, hF.associations]
+    congr 1
+    apply List.map_congr_left
+    intro a ha
+    unfold absAsset
+    congr 1
+    apply List.map_congr_left
+    intro r hr
+    exact absStep_congr (hstep a ha r hr) (hreach a ha r hr)
+  refine ⟨⟨Nat.le_trans hwf.hs hF.step_len, Nat.le_trans hwf.hr hF.reach_len, Nat.le_trans hwf.hl hF.list_len, ?_, ?_, ?_⟩,
+    hH, ?_⟩
+  · intro a ha r hr; rw [hF.assets] at ha; exact hwf.step_lt a ha r hr
+  · intro a ha r hr rr hrr
+    rw [hF.assets] at ha; rw [hstep a ha r hr] at hrr
+    exact hwf.reach_lt a ha r hr rr hrr
+  · intro a ha r hr rr hrr
+    rw [hF.assets] at ha; rw [hstep a ha r hr] at hrr
+    rw [hreach a ha r hr rr hrr]
+    exact hwf.list_lt a ha r hr rr hrr
+  · unfold absLang
+    rw [hH]
+    apply readLang_frame (wf_of_specBelow hwf)
+    intro l hl
+    unfold absStore
+    rw [List.getElem?_map, List.getElem?_map, hF.list_eq l hl]
+
+/-- the call `self._get_attacks_for_asset_type(t)` -/
+abbrev lookup (s : LS) (t : String) : Except PyErr (LS × Dict) := lg__get_attacks_for_asset_type (pyFuelL s) s t
+
+/-- everything the tie gives about one call -/
+theorem lookup_spec (s : LS) (bs br bl : Nat) (hwf : SpecBelow s bs br bl) (t : String)
+    (hok : (absLang s).chainOK ((absLang s).assets.length + 1) t = true) :
+    ∃ s' acc, lookup s t = .ok (s', acc) ∧
+      absAnswer s' acc = (absLang s).foldSteps t ∧
+      resolveH (absLangH s) (absStore s) t = (absStore s', absAcc s' acc) ∧
+      AccFresh s.stepD.length s.reachD.length s' acc ∧
+      AccInv s.exprL.length (absStore s') (absAcc s' acc) ∧
+      FrameAt s s' s.stepD.length s.reachD.length s.exprL.length := by
+  rw [absLang_assets_length] at hok
+  obtain ⟨s', acc, e, r, f, i, F⟩ := attacksPy_sim s bs br bl hwf (s.assets.length + 1) t hok
+  have hres : resolveH (absLangH s) (absStore s) t = (absStore s', absAcc s' acc) := by
+    unfold resolveH
+    have : (absLangH s).assets.length = s.assets.length := by simp [absLangH]
+    rw [this]; exact r
+  refine ⟨s', acc, by unfold lookup pyFuelL; rw [attacks_eq]; exact e, ?_, hres, f, i, F⟩
+  have hv := MalVerif.C03.resolve_value (absLangH s) bl (absStore s) (wf_of_specBelow hwf)
+    (by rw [absStore_length]; exact hwf.hl) t
+  rw [hres] at hv
+  exact hv
+
+/-- a history of calls: the final heap and the answers (heap objects) in the order of the calls -/
+def runLookups : LS → List String → Except PyErr (LS × List Dict)
+  | s, [] => .ok (s, [])
+  | s, t :: ts =>
+    match lookup s t with
+    | .error e => .error e
+    | .ok r =>
+      match runLookups r.1 ts with
+      | .error e => .error e
+      | .ok rest => .ok (rest.1, r.2 :: rest.2)
+
+theorem absAnswer_frame {ms mr lo : Nat} {s s' : LS} {acc : Dict} (hfr : AccFresh ms mr s acc)
+    (hinv : AccInv lo (absStore s) (absAcc s acc))
+    (hF : FrameAt s s' s.stepD.length s.reachD.length s.exprL.length) : absAnswer s' acc = absAnswer s acc := by
+  have hnd : (dKeys acc).Nodup := by rw [← dKeys_absAcc s]; exact hinv.nodup
+  unfold absAnswer
+  rw [absAcc_frame hnd hfr hF.step_eq hF.reach_eq]
+  apply readAcc_frame hinv
+  intro l _ hl
+  rw [absStore_length] at hl
+  unfold absStore
+  rw [List.getElem?_map, List.getElem?_map, hF.list_eq l hl]
+
+theorem runLookups_spec (bs br bl : Nat) (qs : List String) : ∀ (s : LS), SpecBelow s bs br bl →
+    (∀ t ∈ qs, (absLang s).chainOK ((absLang s).assets.length + 1) t = true) →
+    ∃ s' answers, runLookups s qs = .ok (s', answers) ∧
+      answers.map (absAnswer s') = qs.map (absLang s).foldSteps ∧
+      FrameAt s s' s.stepD.length s.reachD.length s.exprL.length := by
+  induction qs with
+  | nil => intro s _ _; exact ⟨s, [], rfl, rfl, FrameAt.refl _ _ _ _⟩
+  | cons t ts ih =>
+    intro s hwf hok
+    obtain ⟨s1, acc1, e1, v1, _, f1, i1, F1⟩ := lookup_spec s bs br bl hwf t (hok t (by simp))
+    obtain ⟨hwf1, _, hL1⟩ := frame_spec hwf (F1.weaken hwf.hs hwf.hr hwf.hl)
+    obtain ⟨s', answers, e2, v2, F2⟩ := ih s1 hwf1 (by
+      intro t' ht'; rw [hL1]; exact hok t' (List.mem_cons_of_mem _ ht'))
+    refine ⟨s', acc1 :: answers, ?_, ?_, F1.trans (F2.weaken F1.step_len F1.reach_len F1.list_len)⟩
+    · simp only [runLookups, e1, e2]
+    · rw [List.map_cons, List.map_cons, v2, hL1, absAnswer_frame f1 i1 F2, v1]
 
 end MalVerif.Py.TieLang
